@@ -15,6 +15,7 @@ from sa.astutil import (anorm, call_name, calls_in, dotted, norm, walk_no_nested
 from sa.consteval import eval_init, UNKNOWN
 from sa.loader import AnalysisError
 from sa.canon import canon
+from sa.astutil import str_template
 from sa.tables import Cfg, module_constants
 from checks import common, groups as G
 
@@ -85,6 +86,33 @@ def fixed_arity_callee(cg, fid, call):
             else:
                 return None
     return ar.pop() if len(ar) == 1 else None
+
+
+STRING_FIELDS = {'group_type', 'type', 'element', 'res_name', 'name', 'residue_type', 'sybyl_type',
+                 'chain_id', 'label', 'terminal', 'residue_label', 'icode', 'alt_loc'}
+
+
+def structure_keyed(node, fn):
+    """Is the subscript's key built from a string-valued field of an atom or
+    group (so that the subscripted object is a mapping, and the key is whatever
+    the structure happens to contain)?"""
+    if isinstance(node.slice, (ast.Slice, ast.Constant)):
+        return False
+    try:
+        key = canon(fn).expr(node.slice)
+    except Exception:
+        key = node.slice
+    for sub in ast.walk(key):
+        if isinstance(sub, ast.Attribute) and sub.attr in STRING_FIELDS:
+            # len(x.name), int(...) give an index, not a mapping key
+            anc_ok = True
+            for a in ast.walk(key):
+                if isinstance(a, ast.Call) and call_name(a) in ('len', 'int', 'ord') \
+                        and any(x is sub for x in ast.walk(a)):
+                    anc_ok = False
+            if anc_ok:
+                return True
+    return False
 
 
 def index_guarded(node, expr, k, fn, names):
@@ -487,7 +515,7 @@ def run(ctx):
                 continue
             base = norm(node.value)
             tbl = base.split('.')[-1]
-            if tbl not in dict_tables:
+            if tbl not in dict_tables and not structure_keyed(node, fn):
                 continue
             n_lk += 1
             keyt = norm(node.slice)
@@ -546,6 +574,23 @@ def run(ctx):
                             and set(acid_t) == set(base_t):
                         ok, why = True, ('`%s` is cleared only for a type that is a key of one '
                                          'table and both tables have the same keys' % flag)
+            if not ok and norm(node.value) == 'globals()':
+                # globals()['<fmt>'.format(<table>[k])]: every value of the shipped
+                # table, put through the format, names a class of this module
+                kexp = canon(fn).expr(node.slice)
+                tmpl = str_template(kexp)
+                src = [n_ for n_ in ast.walk(kexp) if isinstance(n_, ast.Subscript)
+                       and norm(n_.value).split('.')[-1] in dict_tables]
+                vals = cfg.values.get(norm(src[0].value).split('.')[-1]) if len(src) == 1 else None
+                flds = [t for t in (tmpl or []) if t[0] == 'fld']
+                if isinstance(vals, dict) and vals and len(flds) == 1 and flds[0][2] == '':
+                    names_ = {''.join(str(v) if t[0] == 'fld' else t[1] for t in tmpl) for v in vals.values()}
+                    missing = sorted(n_ for n_ in names_ if n_ not in mod.classes)
+                    if not missing:
+                        ok, why = True, ('every value of the shipped table names a class of %s (%s)'
+                                         % (mod.name, sorted(names_)))
+                    else:
+                        why = 'no class %s in %s' % (missing, mod.name)
             key = '%s.%s:%s' % (fid[0], fid[1], anorm(node, fn)[:70])
             dup = sum(1 for o in ctx.obligations if o['key'].startswith('lookup:' + key))
             if dup:
